@@ -7,6 +7,7 @@ ALL="C01 C02 C03 C04 C05 C06 C07 C08 C09 C11 C12 C13 C14 C15 C16 C17 C18 C19 C20
 if [ -z "${MUT_SRC:-}" ]; then
   SNAP=$(mktemp -d /tmp/seedsnap.XXXXXX); trap 'rm -rf "$SNAP"' EXIT
   rsync -a --exclude .git /repo/ "$SNAP/"; export MUT_SRC=$SNAP
+  mkdir -p $SNAP/.verif && cp baseline_obligations.json baseline_params.json known_findings.json residue.json $SNAP/.verif/ && export MUT_VERIF=$SNAP/.verif
 fi
 for d in seeded/*/; do
   id=$(basename $d); prop=${id%-*}
